@@ -195,7 +195,8 @@ def need_float(init, stock, opt, prod):
     with np.errstate(invalid="ignore"):
         goal = opt[None, :] * init["tech"] * inv[:, None]
     use = prod[None, :] * init["tech"]
-    if np.allclose(stock, goal):
+    fg = np.isfinite(goal)
+    if np.allclose(stock[fg], goal[fg]):
         gap = np.zeros_like(use)
     else:
         gap = np.zeros_like(use)
@@ -343,6 +344,14 @@ def mon_finite(trace, prop="C20"):
     return out
 
 
+def fast_overproduction(scn):
+    """Region of the open finding: base class, capacity-weighted orders and an overproduction
+    response of at least the size of the scarcity itself within one step."""
+    m = scn["model"]
+    gain = (m.get("alpha_max", 1.25) - m.get("alpha_base", 1.0)) * m.get("dt", 1) / m.get("alpha_tau", 365)
+    return m.get("class", "psi") == "base" and m.get("order_type", "alt") == "alt" and gain >= 0.9
+
+
 def mon_c01(trace):
     """Event-free run stays at the initial equilibrium."""
     out = []
@@ -371,7 +380,9 @@ def mon_c01(trace):
             post = st["dist_post"]
             fin = ~inf_rows
             checks.append(("inventories", post["stock"][fin], s0[fin], np.abs(s0[fin])))
-            checks.append(("unmet final demand", post["unmet"], np.zeros(N), np.abs(init["Y0"]).sum(axis=1)))
+            # unmet demand is final demand minus deliveries computed from the row's total demand:
+            # its rounding noise scales with the row total (production), not with final demand
+            checks.append(("unmet final demand", post["unmet"], np.zeros(N), np.abs(X0) + np.abs(init["Y0"]).sum(axis=1)))
         if "ord_post" in st:
             checks.append(("orders", st["ord_post"], Z0, np.abs(Z0)))
         if "prod_pre" in st:
@@ -383,7 +394,8 @@ def mon_c01(trace):
             ok = _close(got, want, scale=sc * 1e-3)
             if not np.all(ok):
                 c = _first_bad(ok)
-                out.append(_fail("C01", trace, t, f"{name} left the equilibrium", np.asarray(got)[c], np.asarray(want)[c], c))
+                out.append(_fail("C01", trace, t, f"{name} left the equilibrium", np.asarray(got)[c], np.asarray(want)[c], c,
+                                 sig="equilibrium-unstable-fast-overproduction" if (fast_overproduction(scn) and t > 20) else None))
                 break
         if out:
             break
@@ -653,14 +665,18 @@ def mon_c09(trace):
                     c = _first_bad(np.abs(got - o[ok_]) <= quantum * 0.5 * (1 + 1e-6) + 1e-12 * np.abs(o[ok_]))
                     out.append(_fail("C09", trace, t, f"{key} is not the recovery function at the elapsed steps (beyond the rounding quantum)",
                                      got[c], o[ok_][c], c))
+                eps = 1e-12 * np.abs(a[k0])          # binary64 noise of the rounding itself on large values
+                ill = rf == "concave" and tau is not None and tau <= 2
                 if np.any(got < 0):
                     out.append(_fail("C09", trace, t, f"{key} negative during recovery", float(got.min()), 0.0))
-                if np.any(got > a[k0] + quantum * 0.51):
+                if np.any(got > a[k0] + quantum * 0.51 + eps):
                     out.append(_fail("C09", trace, t, f"{key} exceeds the initial damage"))
                 if rf in ("linear", "convexe", "convexe noscale", "concave"):
                     pv = prev.get((i, key))
-                    if pv is not None and np.any(got > pv + quantum * 0.51):
-                        out.append(_fail("C09", trace, t, f"{key} increased under a built-in recovery curve"))
+                    if pv is not None and np.any(got > pv + quantum * 0.51 + eps):
+                        out.append(_fail("C09", trace, t, f"{key} increased under a built-in recovery curve"
+                                         + (" (concave curve with recovery_tau <= 2)" if ill else ""),
+                                         sig="concave-recovery-tau-le-2" if ill else None))
                     if rf == "linear" and tau is not None and e == tau and np.any(got != 0):
                         out.append(_fail("C09", trace, t, "linear recovery: damage not zero after tau recovery steps"))
                 prev[(i, key)] = got
